@@ -184,7 +184,7 @@ def r_base_pattern(ctx, rid):
     ctx.ob(rid, 'base-product', rets == ['Product{left, right}'] or rets == ['Product{new(left), new(right)}'], 'BasePattern::product(l, r) = Product(l, r)', bp.where(), str(rets))
 
 
-def r_tags(ctx, rid):
+def r_tags(ctx, rid, arms_only=False):
     ctx.rule(rid, 'sum-tag convention: bit(false) = injl unit, bit(true) = injr unit; match arms are normalised so that Left/None/false is the left arm')
     fx = ctx.facts()
     fn = ctx.anchor(fx, 'named::CoreExt::bit')
@@ -196,7 +196,8 @@ def r_tags(ctx, rid):
                 got[p.conds[0][1] if p.conds else '?'] = tstr(rc.term(r))
             except Opaque as e:
                 got['?'] = str(e)
-    ctx.ob(rid, 'bit', got == {'0': 'injl(unit)', '!0': 'injr(unit)'}, 'bit(false) = injl unit, bit(true) = injr unit', fn.where(), str(got))
+    if not arms_only:
+        ctx.ob(rid, 'bit', got == {'0': 'injl(unit)', '!0': 'injr(unit)'}, 'bit(false) = injl unit, bit(true) = injr unit', fn.where(), str(got))
     mp = ctx.anchor(fx, '<parse::Match as parse::PestParse>::parse')
     combos = {}
     for k, p, r in explore(ctx, mp, keep_site=True):
